@@ -479,18 +479,63 @@ def run(repo, rep, tier):
         r4.sites += 1
         r4.functions.add(h.fq)
         pn = h.params[0]
-        br = None
-        for n in walk_no_nested(h.node):
-            if isinstance(n, ast.If) and isinstance(n.test, ast.Call) and \
-                    dotted(n.test.func) == 'isinstance' and \
-                    norm(n.test.args[0]) == pn and \
-                    norm(n.test.args[1]) == types:
-                br = n
-        stm = [norm(x) for x in br.body] if br is not None else []
-        ok = br is not None and '%s = %s.copy()' % (pn, pn) in stm and \
-            '%s.host = None' % pn in stm and \
-            '%s.namespace = None' % pn in stm and \
-            stm.index('%s = %s.copy()' % (pn, pn)) == 0
+        # on every return path on which the argument is known to be a path
+        # object, what is returned is a copy of it (never the caller's
+        # object) whose host and namespace are None at the return
+        from ..paths import return_paths
+        from .. import attrstate
+        tset = {x.strip() for x in types.strip('()').split(',')}
+        stm = []
+        n_path = 0
+        ok = True
+        for pth in return_paths(h, inline=False) or []:
+            is_path = False
+            for t, pol in pth.facts:
+                if pol and isinstance(t, ast.Call) and \
+                        dotted(t.func) == 'isinstance' and \
+                        norm(t.args[0]) == pn:
+                    got = {norm(x) for x in (
+                        t.args[1].elts if isinstance(t.args[1], ast.Tuple)
+                        else [t.args[1]])}
+                    if got <= tset | {'CIMClassName', 'CIMInstanceName'} and \
+                            got & tset:
+                        is_path = True
+            if not is_path:
+                continue
+            n_path += 1
+            v = pth.value
+            good = False
+            if isinstance(v, ast.Name) and v.id in pth.env:
+                d_ = pth.env[v.id][0]
+                copied = isinstance(d_, ast.Call) and \
+                    isinstance(d_.func, ast.Attribute) and \
+                    d_.func.attr == 'copy' and norm(d_.func.value) == pn
+                # the statements of this path after the copy was taken
+                later = pth.effects[pth.env[v.id][1] + 1:]
+
+                def last_store(attr):
+                    val = None
+                    for st_ in later:
+                        if isinstance(st_, ast.Assign) and \
+                                len(st_.targets) == 1 and \
+                                norm(st_.targets[0]) == '%s.%s' % (v.id,
+                                                                   attr):
+                            val = st_.value
+                        elif isinstance(st_, ast.Assign) and \
+                                norm(st_.targets[0]) == v.id:
+                            val = None
+                    return val
+                stripped = all(
+                    isinstance(last_store(a_), ast.Constant) and
+                    last_store(a_).value is None
+                    for a_ in ('host', 'namespace'))
+                good = copied and stripped
+                stm.append('%s = %s; host None: %s' % (
+                    v.id, norm(d_, 40), stripped))
+            else:
+                stm.append('return %s' % norm(v, 40))
+            ok = ok and good
+        ok = ok and n_path >= 1
         r4.ob(ok, hn, {'helper': hn, 'path_branch': stm})
         if not ok:
             rep.finding(r4, h.qualname, 'copy(); host = None; namespace = '
@@ -846,6 +891,8 @@ def iparam_typed_by_name(repo, rep, ops):
     if f is None:
         raise AnalysisError('parse_iparamvalue vanished')
     r10.functions.add(f.fq)
+    from ..inline import Flat
+    f = Flat(f)
     # locals holding the NAME attribute
     name_vars = set()
     for n in walk_no_nested(f.node):
@@ -880,13 +927,21 @@ def iparam_typed_by_name(repo, rep, ops):
         r10.sites += 1
         names = None
         for t, pol in facts:
-            if pol and isinstance(t, ast.Compare) and len(t.ops) == 1 and \
-                    isinstance(t.ops[0], ast.In) and \
+            if isinstance(t, ast.Compare) and len(t.ops) == 1 and \
+                    ((isinstance(t.ops[0], ast.In) and pol) or
+                     (isinstance(t.ops[0], ast.NotIn) and not pol)) and \
                     any(isinstance(x, ast.Name) and x.id in name_vars
-                        for x in ast.walk(t.left)) and \
-                    isinstance(t.comparators[0], (ast.Tuple, ast.List,
-                                                  ast.Set)):
-                names = [const_str(e) for e in t.comparators[0].elts]
+                        for x in ast.walk(t.left)):
+                tab = t.comparators[0]
+                if isinstance(tab, ast.Name):
+                    # a local bound once to the table of names
+                    defs = [a_.value for a_ in walk_no_nested(f.node)
+                            if isinstance(a_, ast.Assign) and
+                            len(a_.targets) == 1 and
+                            norm(a_.targets[0]) == tab.id]
+                    tab = defs[0] if len(defs) == 1 else tab
+                if isinstance(tab, (ast.Tuple, ast.List, ast.Set)):
+                    names = [const_str(e) for e in tab.elts]
         ok = names is not None and all(n_ is not None for n_ in names)
         unknown = [n_ for n_ in (names or []) if n_ and n_.lower() not in sent]
         r10.ob(ok and not unknown, norm(st, 60),
